@@ -18,6 +18,8 @@ See the License for the specific language governing permissions and
 limitations under the License.
 """
 
+import re
+
 from sfc_models.utils import list_tokens, get_invalid_variable_names, get_invalid_tokens, replace_token
 
 
@@ -120,6 +122,10 @@ class EquationParser(object):
                 pos = eqn.find('(k-1)')
                 if pos == -1:
                     self.Endogenous.append((varname, eqn))
+                elif len(eqn[pos + 5:].strip()) > 0 or re.match(r'^[A-Za-z_]\w*$', eqn[0:pos].strip()) is None:
+                    # Only pure lags "x(k-1)" are supported; report anything else instead of truncating it.
+                    msg += 'Lag inside an expression is not supported - ignored: "%s"\n' % (equation,)
+                    del self.AllEquations[varname]
                 else:
                     self.Lagged.append((varname, eqn[0:pos]))
             else:
